@@ -528,7 +528,10 @@ class Alias:
                 if rhs_immut or (cur.kinds <= {K_TUPLE, K_LIST, K_STR, K_INT, K_NUM, K_BOOL} and cur.kinds != UNK
                                  and cur.kinds):
                     # rebinding (immutable) or list extension of a local sequence: container-level
-                    env[t.id] = Val(cur.orig | vv.orig, cur.kinds)
+                    if cur.kinds and cur.kinds <= {K_INT, K_NUM, K_BOOL, K_STR} and cur.kinds != UNK:
+                        env[t.id] = Val(EMPTY, cur.kinds)      # a number / string: the result is a new value, nothing is shared
+                    else:
+                        env[t.id] = Val(cur.orig | vv.orig, cur.kinds)
                 else:
                     self.add_sink(n, st, "augassign", cur.orig, target=t)
             elif isinstance(t, ast.Attribute):
